@@ -83,7 +83,7 @@ def run_unit(unit_dir, tier, relock=False):
             r3 = f3.result() if f3 else None
         res['checker_cmd'] = r1['cmd']
         analyse(res, asm, r1)
-        analyse_vacuity(res, vac, r2)
+        analyse_vacuity(res, vac, r2, extra)
         if r3 is not None:
             res['rlimit_recheck'] = {'rc': r3['rc'], 'note': 'same file with --rlimit 20 (informational: stability of the proof)'}
     except Undecided as e:
@@ -223,7 +223,8 @@ def analyse(res, asm, r):
     res['verus_summary'] = vr
 
 
-def analyse_vacuity(res, vac, r):
+def analyse_vacuity(res, vac, r, extra_args=None):
+    extra_args = extra_args or []
     gen = vac['gen']
     probes = [(n + 1, o) for n, (t, o) in enumerate(gen.lines) if o[0] == 'probe']
     res['vacuity']['probes'] = len(probes)
@@ -239,11 +240,33 @@ def analyse_vacuity(res, vac, r):
             for s in d.get('spans', []):
                 hit.add(s['line_start'])
     ok = 0
-    for n, o in probes:
-        if n in hit:
-            ok += 1
-        else:
-            res['undecided'].append('vacuity: `assert(false)` at %s of %s was NOT refuted (contradictory precondition / invariant or unreachable code)' % (o[2], o[1]))
+    missed = [(n, o) for n, o in probes if n not in hit]
+    ok = len(probes) - len(missed)
+    if missed:
+        # after a first refuted probe Verus may assume it for the rest of the same query (e.g. loop_isolation(false)):
+        # re-run each unrefuted probe ALONE (the other probe lines blanked, line numbers kept) before believing it
+        def solo(item):
+            n, o = item
+            lines = [('' if (oo[0] == 'probe' and k + 1 != n) else t) for k, (t, oo) in enumerate(gen.lines)]
+            path = os.path.join(BUILD, res['unit'], '%s_vac_%d.rs' % (res['unit'], n))
+            open(path, 'w').write('\n'.join(lines) + '\n')
+            rr = vlib.run_verus(path, extra_args)
+            try:
+                os.remove(path)
+            except OSError:
+                pass
+            for d in rr['diags']:
+                if d.get('level') == 'error' and 'assertion failed' in d.get('message', ''):
+                    if any(sp['line_start'] == n for sp in d.get('spans', [])):
+                        return True
+            return False
+        with cf.ThreadPoolExecutor(min(8, len(missed))) as ex:
+            outcome = list(ex.map(solo, missed))
+        for (n, o), good in zip(missed, outcome):
+            if good:
+                ok += 1
+            else:
+                res['undecided'].append('vacuity: `assert(false)` at %s of %s was NOT refuted (contradictory precondition / invariant or unreachable code)' % (o[2], o[1]))
     res['vacuity']['failed_as_required'] = ok
 
 
